@@ -23,6 +23,7 @@ METHOD = {"add": "Food.__add__", "sub": "Food.__sub__", "neg": "Food.__neg__", "
           "max_all": "Food.get_max_all_months", "min_elem": "Food.min_elementwise", "min_elem_r": "Food.min_elementwise",
           "round": "Food.get_rounded_to_decimal", "clip": "Food.negative_values_to_zero", "shift": "Food.shift",
           "in_units": "Food.in_units", "helper": "Food.in_units_helper", "set_units": "UnitConversions.set_units",
+          "set_req": "UnitConversions.set_nutrition_requirements",
           "set_l2t": "UnitConversions.set_units_from_list_to_total",
           "set_l2e": "UnitConversions.set_units_from_list_to_element",
           "set_e2l": "UnitConversions.set_units_from_element_to_list"}
@@ -90,6 +91,24 @@ def expected_labels(st, x, y):
     return None
 
 
+def probe_conversions(cur, where, fail, counts):
+    """(i) conversions follow the CURRENT requirements: one unit of each nutrient against the defining formulas"""
+    counts["settings_probes"] += 1
+    kd, fd, pd, pop = cur["kcals_daily"], cur["fat_daily"], cur["protein_daily"], cur["population"]
+    need = [kd * 30 * pop / 1e9, fd / 1e6 * 30 / 1000 * pop, pd / 1e6 * 30 / 1000 * pop]
+    exp = {"in_units_percent_fed": [100 / v for v in need],
+           "in_units_billions_fed": [pop / 1e9 / v for v in need],
+           "in_units_kcals_grams_grams_per_person": [kd / need[0], fd / need[1], pd / need[2]]}
+    for name, e in exp.items():
+        with quiet():
+            u = getattr(Food(1.0, 1.0, 1.0, "billion kcals", "thousand tons", "thousand tons"), name)()
+        got = [float(u.kcals), float(u.fat), float(u.protein)]
+        if any(abs(g - x) > 1e-9 * abs(x) for g, x in zip(got, e)):
+            fail("C11:conversion-ignores-current-requirements@UnitConversions." + name,
+                 f"{where}: with requirements {cur} one unit converts to {got}, the requirements give {e}")
+            return
+
+
 def audit_seq(seq, flags, fails, counts, settings):
     I.set_flags(settings, flags[0], flags[1])
     rng = random.Random(seq["seed"])
@@ -123,6 +142,9 @@ def audit_seq(seq, flags, fails, counts, settings):
         except BaseException as e:
             z, err = None, classify(e)
         counts["steps"] += 1
+        if st["op"] == "set_req" and err is None:
+            cur_settings = st["settings"]
+            probe_conversions(cur_settings, f"step {i} after set_nutrition_requirements", fail, counts)
         # (d) operands unchanged
         if I.snapshot(x) != bx or I.snapshot(y) != by:
             fail("C11:operand-modified@" + m, f"step {i} {st['op']} modified an operand")
@@ -291,7 +313,7 @@ def run(payload):
     settings = payload["settings"]
     fails = []
     counts = {k: 0 for k in ("steps", "accepted", "ctor_cases", "ctor_rejected", "unit_check_cases",
-                             "unit_mismatch_cases", "ratio_side_cases", "wf_in_cases", "label_table_cases", "pred_pairs", "index_cases")}
+                             "unit_mismatch_cases", "ratio_side_cases", "wf_in_cases", "label_table_cases", "pred_pairs", "index_cases", "settings_probes")}
     if "replay" in payload:
         c = payload["replay"]
         if c["type"] == "seq":
